@@ -6,6 +6,10 @@ Proofs/VdrInv.lean; model: Martian/Vdr.lean).
 import Martian.Vdr
 import Proofs.VdrReport
 import Proofs.VdrShrink
+import Proofs.VdrExact
+import Proofs.VdrReclaim
+import Proofs.VdrExample
+import Proofs.VdrTmp
 
 namespace Props.C14
 open Martian.Vdr
@@ -47,39 +51,68 @@ theorem inside_pipestance (c : Cfg) (s0 : St) (evs : List Ev) (root : Path) (fr 
 theorem disk_only_shrinks (c : Cfg) (s0 : St) (evs : List Ev) :
     ∀ d ∈ (run c s0 evs).disk, d ∈ s0.disk := (shr_run c s0 evs).disk
 
-/-- **report_exact** for non-volatile forks (temp directories and chunk-level
-files), under every interleaving: the report's count is the number of
-entries removed and its size the sum of their sizes.
-
-The full statement (also for the file-level removal of volatile forks,
-`vdrKillSome`) needs the invariant that the cache holds exactly one entry per
-remaining entry below the files/ directories; it is not proved here and is
-covered by the correspondence (`fork_life_replay`, `partialVdrKill_step`) and
-by the `report-totals` monitor on the real code. -/
-theorem report_exact_partial (c : Cfg) (s0 : St) (evs : List Ev)
-    (hv : c.volatile = false) (hs : c.strict = false)
-    (h0 : s0.report.count = 0 ∧ s0.report.size = 0 ∧ s0.removed = []) :
+/-- **report_exact.**  For every configuration (volatile, strict, splitting
+or not) and under every interleaving: the report's count is the number of
+entries removed and its size the sum of their sizes.  The proof maintains the
+one-to-one alignment between the file -> arguments cache and the entries
+below the files/ directories (`Aligned`), and that a directory entry lists at
+least the arguments of everything below it (`Mono`), through
+cacheParamFileMap / updateParamFileCache / vdrKillSome / temp cleaning. -/
+theorem report_exact (c : Cfg) (s0 : St) (evs : List Ev) (ok : CfgOK c s0) (sep : Sep s0.disk)
+    (fr : Fresh s0) (h0 : s0.report.count = 0 ∧ s0.report.size = 0) :
     (run c s0 evs).report.count = (run c s0 evs).removed.length ∧
-    (run c s0 evs).report.size = sumSize (run c s0 evs).removed := by
-  apply exact_run_nonvol c s0 hv hs evs
-  obtain ⟨a, b, r⟩ := h0
-  unfold Exact
-  rw [a, b, r]; simp [sumSize]
+    (run c s0 evs).report.size = sumSize (run c s0 evs).removed :=
+  ((XInv.init s0 fr h0).run ok sep evs).exact
 
-/-- **reclaims_all_unreferenced**, one full pass: after the file-level pass
-of a volatile fork (cache built from the disk), every entry left below the
-files/ directories is referenced (equal, ancestor or descendant) by an
-argument that is still held.
+/-- **reclaims_all_unreferenced.**  A volatile fork whose two bookkeeping maps
+are consistent (`BK`: a node holds an argument iff it is a post node listing
+it; no argument without holders): after ANY history in which every post node
+has completed, the complete-state pass (`Pipestance.VDRKill`) makes the fork
+final and every entry left below its files/ directories is referenced (equal,
+ancestor or descendant) by an argument the top level or a retain holds. -/
+theorem reclaims_all_unreferenced (c : Cfg) (s0 : St) (evs : List Ev) (ok : CfgOK c s0)
+    (sep : Sep s0.disk) (fr : Fresh s0) (h0 : s0.report.count = 0 ∧ s0.report.size = 0)
+    (hv : c.volatile = true) (bk : BK s0) (hf : s0.final = false)
+    (hdone : ∀ p ∈ s0.postNodes, p.1 ∈ (run c s0 evs).doneNodes) :
+    (run c s0 (evs ++ [.kill])).final = true ∧
+    ∀ d ∈ (run c s0 (evs ++ [.kill])).disk, isTmp d.kind = false →
+      ∃ a, Holds s0 a none ∧ refs c a d.path = true := by
+  obtain ⟨x, r⟩ := joint_run ok sep hv (XInv.init s0 fr h0) (RInv.init c s0 fr bk hf) evs
+  have hrun : run c s0 (evs ++ [.kill]) = kill c (run c s0 evs) := by
+    unfold run; rw [List.foldl_append]; rfl
+  rw [hrun]
+  have hfin : (kill c (run c s0 evs)).final = true := by
+    apply kill_final hv
+    intro p hp
+    obtain ⟨q, hq, e⟩ := r.sh.keys p hp
+    rw [← e]; exact hdone q hq
+  exact ⟨hfin, (r.kill ok sep hv x).fin hfin⟩
 
-Partial: that at completion the arguments still held are exactly those with a
-`none` holder (top level / retain) needs the consistency of `filePostNodes`
-with `fileArgs`; the defect repaired in this round (the post-node argument
-set shared between static forks) broke exactly that consistency.  Covered by
-the `volatile-file-survives` monitor and the correspondence. -/
-theorem reclaims_all_unreferenced_partial (c : Cfg) (s : St) (done : Bool) (hc : s.cache = none) :
-    ∀ d ∈ (vdrKillSome c s done).disk, isTmp d.kind = false →
-      ∃ a, a ∈ s.dom ∧ refs c a d.path = true :=
-  vdrKillSome_leaves_referenced c s done hc
+/-- **tmp_gone_when_final.**  For every configuration and interleaving: once
+the fork's final report is written, no entry of the split / chunk / join temp
+directories is left (the split phase only counts for stages that split). -/
+theorem tmp_gone_when_final (c : Cfg) (s0 : St) (evs : List Ev) (hr : s0.ran = []) (hf : s0.final = false)
+    (hfin : (run c s0 evs).final = true) :
+    ∀ d ∈ (run c s0 evs).disk, ∀ ph, ph < 3 → (ph ≠ 0 ∨ c.splits = true) → d.kind ≠ .tmp ph := by
+  have t0 : TInv c s0 := by
+    refine ⟨?_, ?_⟩
+    · intro ph hp; rw [hr] at hp; cases hp
+    · intro h; rw [hf] at h; cases h
+  have t := t0.run evs
+  intro d hd ph hlt hne
+  exact t.clean ph (t.fin hfin ph ⟨hlt, hne⟩) d hd
+
+/-- Without that consistency the statement fails — the defect repaired in
+round 1 (the post-node argument set shared between static forks) is exactly a
+violation of `BK`: post node `C` no longer lists `a`, `C` completes, and the
+file stays although nobody but the finished `C` holds it. -/
+theorem reclaim_needs_consistency :
+    let c : Cfg := { volatile := true, strict := true, splits := false
+                     argNames := [("a", ["/p/files/a".toList])], argFiles := [("a", ["/p/files/a".toList])] }
+    let s : St := { fileArgs := [("a", [some "C"])], postNodes := [("C", [])],
+                    disk := [⟨"/p/files/a".toList, 1, .out⟩] }
+    (run c s [.removeEmpty, .cacheMap, .nodeDone "C", .kill]).disk.map (·.path) = ["/p/files/a".toList] := by
+  decide
 
 /-! ### non-vacuity -/
 
@@ -101,5 +134,24 @@ example :
     ((run c s [.early 2, .kill]).disk.map (·.path) = ["/p/j/files/o".toList]) ∧
     (run c s [.early 2, .kill]).report.count = 3 ∧ (run c s [.early 2, .kill]).report.size = 4103 := by
   decide
+
+/-- the hypotheses of `report_exact` / `reclaims_all_unreferenced` are satisfiable
+(the fork of Props/C04.lean's example) and the conclusions are not vacuous -/
+example : Sep exSt.disk ∧ BK exSt ∧ exSt.final = false ∧
+    (run exCfg exSt [.removeEmpty, .cacheMap, .kill, .nodeDone "C", .kill]).report.count = 4 ∧
+    (run exCfg exSt [.removeEmpty, .cacheMap, .kill, .nodeDone "C", .kill]).removed.length = 4 := by
+  refine ⟨?_, ⟨?_, ?_⟩, rfl, by decide, by decide⟩
+  · intro d hd ht d' hd' ht'
+    simp [exSt] at hd hd'
+    rcases hd with rfl | rfl | rfl | rfl | rfl <;> simp [isTmp] at ht
+    rcases hd' with rfl | rfl | rfl | rfl | rfl <;> first | decide | (simp [isTmp] at ht')
+  · intro a hs hm n hn
+    simp [exSt] at hm
+    rcases hm with ⟨rfl, rfl⟩ | ⟨rfl, rfl⟩
+    · simp at hn; subst hn; exact ⟨["a", "b"], by decide, by decide⟩
+    · simp at hn; subst hn; exact ⟨["a", "b"], by decide, by decide⟩
+  · intro a hs hm
+    simp [exSt] at hm
+    rcases hm with ⟨rfl, rfl⟩ | ⟨rfl, rfl⟩ <;> simp
 
 end Props.C14
